@@ -63,6 +63,7 @@ pub struct Profile {
     pub signed_constraints: bool,
     /// every enum declares at least one plain value tag
     pub enum_needs_value: bool,
+    pub multi_constraints: bool,
 }
 
 impl Profile {
@@ -112,6 +113,7 @@ impl Profile {
             fixed_fields: true,
             signed_constraints: false,
             enum_needs_value: false,
+            multi_constraints: true,
         }
     }
     pub fn rust_rt() -> Profile {
@@ -126,6 +128,8 @@ impl Profile {
     pub fn java() -> Profile {
         Profile {
             name: "java".into(),
+            multi_constraints: false,
+            fields_after_payload: false,
             signed_constraints: true,
             fixed_fields: false,
             nonempty_records: true,
@@ -721,7 +725,7 @@ impl<'a, 'b> Gen<'a, 'b> {
             let modifier = if sized && !body && self.p.payload_modifier && self.s.below(4) == 0 { Some(1 + self.s.below(5) as u64) } else { None };
             let it = Item::Payload { body, size, modifier };
             // unsized payload must come after every variable item (only static fields may follow)
-            if size.is_none() || self.s.below(2) == 0 {
+            if size.is_none() || !self.p.fields_after_payload || self.s.below(2) == 0 {
                 items.push(it);
             } else {
                 let pos = self.s.below(items.len() + 1);
@@ -1037,7 +1041,7 @@ impl<'a, 'b> Gen<'a, 'b> {
             // alias level: no constraint here, the constraint moves to a grandchild
             let alias = self.p.alias_children && depth + 1 < self.p.max_depth && n == 1 && self.s.below(6) == 0;
             // extra constraint on another field
-            if !alias && !rest.is_empty() && self.s.below(3) == 0 {
+            if !alias && !rest.is_empty() && self.p.multi_constraints && self.s.below(3) == 0 {
                 let k = self.s.below(rest.len());
                 let (eid, ew, ety) = rest.remove(k);
                 match ety {
